@@ -640,6 +640,7 @@ class Unit:
         self.skipped = []      # total mode: functions emitted as their contract alone (not flagged np)
         self.inline = {}       # function name -> helper names to inline at their call sites (R18)
         self.inlined = {}      # helper -> where it was taken from
+        self.absent = []       # listed functions that no longer exist on this tree
 
     def read_repo(self, rel):
         p = os.path.join(self.repo, rel)
@@ -754,8 +755,15 @@ def process_template(unit, tpl_path):
                 t = norm_ws(m.group(1))
                 mm = re.match(r'(?:StdResult|Result)<\s*(.*?)\s*(?:,\s*\w+\s*)?>$', t)
                 return (mm.group(1) if mm else t), '%s:%d' % (rel, line_of(src, ls))
-            t1, o1 = ret_of(f1, n1)
-            t2, o2 = ret_of(f2, n2)
+            try:
+                t1, o1 = ret_of(f1, n1)
+                t2, o2 = ret_of(f2, n2)
+            except AssembleError as e_abs:
+                if 'found 0' in str(e_abs):
+                    unit.absent.append('interface_' + lab)
+                    i += 1
+                    continue
+                raise
             unit.emit('// caller %s::%s deserialises `%s` (%s); callee %s::%s serialises `%s` (%s)' % (f1, n1, t1, o1, f2, n2, t2, o2), rel_tpl)
             unit.theorems.append({'name': 'interface_' + lab, 'out_line': unit.cur_line(), 'spec': '%s:%d' % (rel_tpl, i + 1)})
             unit.emit('pub proof fn interface_%s()' % lab, rel_tpl)
@@ -884,11 +892,20 @@ def process_fn(unit, lines, i, arg, rel_tpl):
         raise AssembleError('missing //@end for fn %s' % name)
 
     src = unit.read_repo(rel)
-    if impl_hdr:
-        a, b = find_impl_block(src, impl_hdr)
-        ls, bo, be = find_fn(src, name, a, b)
-    else:
-        ls, bo, be = find_fn(src, name)
+    try:
+        if impl_hdr:
+            a, b = find_impl_block(src, impl_hdr)
+            ls, bo, be = find_fn(src, name, a, b)
+        else:
+            ls, bo, be = find_fn(src, name)
+    except AssembleError as e_absent:
+        if 'found 0' in str(e_absent) and not impl_hdr:
+            # the function no longer exists on this tree (removed or renamed): nothing to verify against its contract; whoever called it
+            # calls something else now and is checked against its own contract (the replacement is inlined where possible, R18). The
+            # function's clauses are reported undecided.
+            unit.absent.append(newname or name)
+            return j + 1
+        raise
     sig = src[ls:bo].rstrip()
     body = src[bo:be + 1]
     src_line = line_of(src, ls)
@@ -1127,7 +1144,7 @@ def assemble(unit_name, repo='/repo', mode='partial', outdir=None, stub=None, in
     h.update(mode.encode())
     meta = {'unit': unit_name, 'mode': mode, 'file': out_rs, 'origins': [o for _, o in unit.out],
             'functions': unit.functions, 'labels': unit.labels, 'theorems': unit.theorems,
-            'stubbed': unit.stubbed, 'skipped_total': unit.skipped, 'inlined': unit.inlined, 'extraction': unit.stats, 'inputs': sorted(set(unit.inputs)), 'hash': h.hexdigest()}
+            'stubbed': unit.stubbed, 'skipped_total': unit.skipped, 'inlined': unit.inlined, 'absent': unit.absent, 'extraction': unit.stats, 'inputs': sorted(set(unit.inputs)), 'hash': h.hexdigest()}
     with open(os.path.join(outdir, unit_name + suffix + '.map.json'), 'w') as f:
         json.dump(meta, f)
     return meta
